@@ -16,9 +16,16 @@ class ConvHooks(Hooks):
         self.sed_read_kwargs = []
 
     def decide(self, interp, test, env, mod):
-        t = up(test).replace(' ', '')
-        if t == 'n_ap==1':
-            return self.single
+        """one aperture / several apertures, decided on the value of the test"""
+        try:
+            v = interp.expr(test, dict(env), mod)
+        except Exception:
+            return None
+        if isinstance(v, Arr) and v.ndim == 0 and not v.poly.is_const():
+            syms, fns = alg.leaf_syms(v.poly)
+            if not syms and fns <= {'len'}:
+                from .interp import decide_with, count_atom
+                return decide_with(interp, test, env, mod, consts={count_atom(A): 1 if self.single else 10 ** 6})
         return None
 
     def try_handler(self, interp, st, env, mod):
@@ -110,9 +117,11 @@ def run_driver(repo, version, single_aperture=False):
 
         def block(self, body, env, mod):
             r = Interp.block(self, body, env, mod)
-            if env.get('__func__') is fi and 'fluxes' in env:
-                fluxes_holder['fluxes'] = env['fluxes']
-                fluxes_holder['env'] = env
+            if env.get('__func__') is fi:
+                for k_, v_ in env.items():
+                    if isinstance(v_, GenList) and isinstance(v_.elem, Obj) and v_.elem.cls is not None and v_.elem.cls.name == 'ConvolvedFluxes':
+                        fluxes_holder['fluxes'] = v_
+                        fluxes_holder['env'] = env
             return r
     I = Tr(repo, h)
     out = I.call(fi, ['DIR', filters], kwargs)
